@@ -38,6 +38,15 @@ var tupWriter = &xWriter{
 	Calls: map[string]string{"os.WriteHead": "tr_WriteHead", "os.WriteInt32": "tr_WriteInt32", "os.WriteString": "tr_WriteString", "os.WriteBytes": "tr_WriteBytes"},
 }
 
+// tup.UniAttribute.Decode reads through a *codec.Reader parameter: its methods are the translated units
+var tupReader = &xStateSpec{
+	Type:   "go_reader",
+	Object: "is",
+	Calls: map[string]string{"is.SkipTo": "tr_SkipTo", "is.ReadInt32": "tr_ReadInt32", "is.ReadString": "tr_ReadString",
+		"is.SkipToNoCheck": "tr_SkipToNoCheck", "is.ReadBytes": "tr_ReadBytes"},
+	Errs: map[string]bool{"fmt.Errorf": true},
+}
+
 var codecReader = &xStateSpec{
 	Type:   "go_reader",
 	Fields: map[string]xStField{"b.depth": {"rd_depth", "go_rd_set_depth"}, "b.ref": {"rd_ref", ""}},
@@ -167,6 +176,7 @@ var xUnits = []xUnit{
 		Oracles: map[string]xOracle{"len(u.data)": {"count", "Z"}}},
 	{Name: "tr_tup_Encode_entry", Dir: "tars/protocol/tup", Func: "UniAttribute.Encode", Writer: tupWriter, Deep: true,
 		From: "err = os.WriteString(k, 0)", To: "err = os.WriteBytes(v)", Outs: []string{"err"}, After: []string{"if err != nil {\n\treturn err\n}"}},
+	{Name: "tr_tup_Decode", Dir: "tars/protocol/tup", Func: "UniAttribute.Decode", State: tupReader, Recv: true, Fuel: true, StrMaps: true},
 	{Name: "tr_cli_recv_chunk", Dir: "tars/transport", Func: "connection.recv", Deep: true, Fuel: true,
 		From: "currBuffer = append(currBuffer, buffer[:n]...)", To: "for {", Outs: []string{"currBuffer"}, After: []string{}, Fresh: []string{"currBuffer"},
 		Writer: &xWriter{Type: "list (list N)", Prims: map[string]xPrim{"c.client.protocol.Recv": {"go_deliver", []int{0}}}},
@@ -358,7 +368,7 @@ func xlateUnit(root string, u *xUnit, units []xUnit, ld *xLoader, records map[st
 	if fd == nil {
 		panic(xErr{token.Position{Filename: filepath.Join(root, u.Dir)}, "function " + u.Func + " not found"})
 	}
-	x := &xl{xpkg: p, units: units, ptrParam: map[types.Object]bool{}, isParam: map[*types.Var]bool{}, oracleAt: map[string]ast.Node{}, fset: p.fset, info: p.info, pkg: p.pkg, unit: u, names: map[types.Object]string{}, used: map[string]bool{}, records: records, recOrd: recOrd, consts: consts, constOrd: constOrd}
+	x := &xl{xpkg: p, ld: ld, units: units, ptrParam: map[types.Object]bool{}, isParam: map[*types.Var]bool{}, oracleAt: map[string]ast.Node{}, fset: p.fset, info: p.info, pkg: p.pkg, unit: u, names: map[types.Object]string{}, used: map[string]bool{}, records: records, recOrd: recOrd, consts: consts, constOrd: constOrd}
 	if fd.Type.TypeParams != nil {
 		x.fail(fd, "generic functions are outside the subset")
 	}
@@ -450,6 +460,11 @@ func xlateUnit(root string, u *xUnit, units []xUnit, ld *xLoader, records map[st
 							if f := x.field(l); f != nil {
 								written[f] = true
 							}
+							if ie, isIdx := l.(*ast.IndexExpr); isIdx { // recv.m[k] = v sets the map field
+								if f := x.field(ie.X); f != nil {
+									written[f] = true
+								}
+							}
 						}
 					case *ast.IncDecStmt:
 						if f := x.field(n.X); f != nil {
@@ -475,9 +490,13 @@ func xlateUnit(root string, u *xUnit, units []xUnit, ld *xLoader, records map[st
 				}
 			}
 			if !isSlice {
-				x.retType = "(" + strings.Join(rts, " * ") + ")"
-				if len(rts) == 1 {
-					x.retType = rts[0]
+				all := rts
+				if u.State != nil { // state mode: the state comes first
+					all = append([]string{u.State.Type}, rts...)
+				}
+				x.retType = "(" + strings.Join(all, " * ") + ")"
+				if len(all) == 1 {
+					x.retType = all[0]
 				}
 			}
 		}
@@ -532,7 +551,7 @@ func xlateUnit(root string, u *xUnit, units []xUnit, ld *xLoader, records map[st
 					continue
 				}
 				if u.State != nil {
-					if x.src(f.Type) == "*bytes.Reader" { // the library object: part of the state
+					if x.src(f.Type) == "*bytes.Reader" || id.Name == u.State.Object { // the library object / the state itself
 						continue
 					}
 					if pt, isPtr := obj.Type().(*types.Pointer); isPtr { // pointer parameter: an in/out value
